@@ -12,7 +12,9 @@ META = {
                  "choices, checked exhaustively by TLC; every edge of the state graph replayed on a real Session/ResponseFuture/"
                  "HostConnection over simulated nodes (protocol v4 and v5), plus recorded random schedules validated against the spec",
     "level": "model_checking",
-    "level_text": "TLC explores, for protocol v4/v5 x statement with/without keyspace x connection keyspace none/same/other, every "
+    "level_text": "TLC explores, for protocol v4/v5 x statement with/without keyspace x connection keyspace none/same/other x stream "
+                  "id space of the pool connections 1 / 2 / default (so that EXECUTE, PREPARE and the re-sent EXECUTE travel under "
+                  "stream id 0 in some behaviours), every "
                   "sequence of: UNPREPARED answers (up to MaxUnprep, on any host of the plan), the two executor hops, PREPARE answered "
                   "with the same id / another id / an error / silence until the client timeout (and a late answer afterwards) / "
                   "connection loss, pool shutdown between the hops, rows. Checked on the send log and the outcome: one PREPARE per "
@@ -131,7 +133,7 @@ def run(ctx):
     ctx.note("replay_divergences_by_signature", by_sig)
 
     # binding self-test (spec -> code): a wrong expectation must be noticed
-    start = next(i for i in init if dict(nodes[i]["cfg"]) == {"pv": 5, "sks": "ks", "cks": "ks"})
+    start = next(i for i in init if dict(nodes[i]["cfg"]) == {"pv": 5, "sks": "ks", "cks": "ks", "ids": 1})
     sw = _pg.follow(nodes, edges, start, [{"name": "Start"}, {"name": "AnsUnprepared", "h": "h1"}, {"name": "RunReprepare"},
                                           {"name": "AnsPrepare", "resp": "same"}, {"name": "RunAfter"}, {"name": "AnsRows"}])
     forged = [dict(nodes[n]) for n in sw[:4]]
@@ -203,6 +205,7 @@ def run(ctx):
         "the plan is h1, h2, .. (load balancing policy double); conviction policy never marks a host down on one connection error",
         "v4 statements with a keyspace are made by setting PreparedStatement.keyspace after Session.prepare()",
         "small scope: <= 3 hosts, <= 3 UNPREPARED answers; only UNPREPARED and rows as answers to the EXECUTE",
+        "id spaces 1 and 2 are produced by overwriting request_ids / highest_request_id of the idle pool connections",
     ]
     rr.Env.discard_all()
 
